@@ -198,3 +198,98 @@ func init() {
 		return p
 	}
 }
+
+func init() {
+	// C03 family: one leader; at heartbeat attempt k a fault begins: store unreachable in one
+	// of several ways, or the record is replaced / deleted / expired underneath. No health
+	// checker, no connection monitor; validation at its default or at multiples of H.
+	families["c03"] = func(r *Rng) *Plan {
+		p := &Plan{Judge: []string{"C03", "C08", "C19", "C18", "C05"}}
+		baseTiming(r, p, []time.Duration{100 * ms, 200 * ms, 500 * ms, 1 * sec, 2 * sec, 3 * sec, 5 * sec})
+		p.Insts = []InstCfg{{ID: "n1", Group: "g1", PromoteMode: Pick(r, []string{"block", "return"}), V: Pick(r, []time.Duration{0, 0, 3 * p.H, 10 * p.H})}}
+		// latency envelope: mostly healthy, sometimes up to the heartbeat time-out
+		p.Store = healthyStore(r, Pick(r, []time.Duration{p.H / 2, p.H / 2, hbTimeout(p.H)}))
+		p.Actions = append(p.Actions, Action{At: r.Dur(0, 50*ms), Kind: AStart, Inst: 0})
+		k := r.Intn(9)
+		t0 := time.Duration(k+1)*p.H + r.Dur(0, p.H) // somewhere inside attempt k's period
+		T := hbTimeout(p.H)
+		kind := r.Intn(10)
+		switch kind {
+		case 0: // immediate errors
+			p.Faults = append(p.Faults, Fault{Kind: FError, Inst: 0, Op: "update", From: t0, Err: Pick(r, []string{"timeout", "noresponders", "closed", "deadline", "disconnected"})})
+		case 1: // hang until time-out
+			p.Faults = append(p.Faults, Fault{Kind: FHang, Inst: 0, Op: "update", From: t0})
+		case 2: // acknowledgement lost after the write was applied
+			p.Faults = append(p.Faults, Fault{Kind: FDropResp, Inst: 0, Op: "update", From: t0})
+		case 3: // permanent partition
+			p.Faults = append(p.Faults, Fault{Kind: FPartition, Inst: 0, From: t0})
+		case 4: // a window of failures shorter or longer than three attempts
+			p.Faults = append(p.Faults, Fault{Kind: Pick(r, []string{FHang, FError, FDropResp}), Inst: 0, Op: "update", From: t0, To: t0 + r.Dur(p.H, 4*p.H+3*T), Err: "timeout"})
+		case 5: // record replaced by an outsider with a well-formed foreign payload
+			p.Actions = append(p.Actions, Action{At: t0, Kind: AOutPut, Key: "g1", Value: []byte(`{"id":"intruder","token":"00000000-0000-4000-8000-000000000001","priority":7}`)})
+		case 6: // record deleted
+			p.Actions = append(p.Actions, Action{At: t0, Kind: AOutDelete, Key: "g1"})
+		case 7: // record expires underneath
+			p.Actions = append(p.Actions, Action{At: t0, Kind: AExpire, Key: "g1"})
+		case 8: // preempted by a higher-priority instance
+			p.Insts[0].Prio = 1
+			p.Insts = append(p.Insts, InstCfg{ID: "n2", Group: "g1", Prio: 5, Takeover: true, PromoteMode: "return"})
+			p.Actions = append(p.Actions, Action{At: t0, Kind: AStart, Inst: 1})
+		case 9: // slow store: latencies around the time-out
+			p.Faults = append(p.Faults, Fault{Kind: FSlow, Inst: 0, Op: "update", From: t0, Arg: r.Dur(T/2, 2*T)})
+		}
+		p.Note = fmt.Sprintf("fault kind %d at attempt %d", kind, k)
+		p.Until = t0 + 4*p.H + 5*T + p.TTL
+		p.Tail = 0
+		p.Sched = SchedCfg{YieldProb: Pick(r, []float64{0, 0.2}), StallMax: Pick(r, []time.Duration{0, 0, p.H / 50})}
+		return p
+	}
+}
+
+func init() {
+	// C12 family: scripted health results around term boundaries; fault-free store; TTL large
+	// enough that an unhealthy streak below the threshold never lets the record lapse.
+	families["c12"] = func(r *Rng) *Plan {
+		p := &Plan{Judge: []string{"C12", "C08", "C19", "C18"}}
+		p.H = Pick(r, []time.Duration{50 * ms, 100 * ms, 200 * ms, 500 * ms})
+		m := r.Intn(7) // 0 = default 3
+		mm := m
+		if mm == 0 {
+			mm = 3
+		}
+		p.TTL = time.Duration(mm+3+r.Intn(3)) * p.H
+		n := 1 + r.Intn(2)
+		for i := 0; i < n; i++ {
+			c := InstCfg{ID: instName(i), Group: "g1", HasHealth: true, MaxHealth: m, HealthRest: "h", PromoteMode: Pick(r, []string{"block", "return"}), V: Pick(r, []time.Duration{0, 4 * p.H})}
+			// script: streaks of length m-1, m, m+1 separated by healthy stretches; 's' = slow
+			var sb []byte
+			for k := 0; k < 6+r.Intn(10); k++ {
+				healthy := r.Intn(4)
+				for j := 0; j < healthy; j++ {
+					sb = append(sb, 'h')
+				}
+				streak := mm - 1 + r.Intn(3)
+				if r.Bool(0.2) {
+					streak = r.Intn(mm + 2)
+				}
+				for j := 0; j < streak; j++ {
+					if r.Bool(0.2) {
+						sb = append(sb, 's')
+					} else {
+						sb = append(sb, 'u')
+					}
+				}
+			}
+			c.Health = string(sb)
+			p.Insts = append(p.Insts, c)
+			p.Actions = append(p.Actions, Action{At: r.Dur(0, 100*ms), Kind: AStart, Inst: i})
+		}
+		p.Store = healthyStore(r, p.H/2)
+		p.Store.WatchDelay = [2]Dur{0, Pick(r, []time.Duration{1 * ms, 50 * ms})}
+		// long enough to consume the scripts over several terms (each demotion costs ~TTL)
+		p.Until = time.Duration(len(p.Insts[0].Health)+10)*p.H + 8*p.TTL
+		p.Tail = p.TTL + 2*sec
+		p.Sched = SchedCfg{YieldProb: Pick(r, []float64{0, 0.2})}
+		return p
+	}
+}
